@@ -1,4 +1,12 @@
-"""Runs dadi.Numerics.make_extrap_func / make_extrap_log_func on the generated cases (real code, overlay)."""
+"""Runs dadi.Numerics.make_extrap_func / make_extrap_log_func on the generated cases (real code, overlay).
+
+Every case wraps its model ONCE (twice when one x list is shared between two wrapped functions) and then calls the wrapped
+function(s) several times, as an optimiser does.  Per call the driver records what the model returned for every grid size
+(in the order of that call's pts list), the result, whether every object the caller handed over (extrap_x_l, every pts list)
+is still bit-identical to what it was before the first call, and which buffers the result shares with arrays returned by the
+model or with earlier results.  After recording, the result and the model's arrays of that call are overwritten with a
+sentinel, so that anything a wrapper kept by reference shows up in the following calls.
+"""
 import sys, json, warnings, logging
 warnings.filterwarnings('ignore')
 import numpy as np
@@ -6,44 +14,95 @@ import dadi
 logging.getLogger('Numerics').setLevel(logging.ERROR)
 np.seterr(all='ignore')
 
-def main():
-    cases = json.load(sys.stdin)
+SENTINEL = -12345.6789
+
+def snap(o):
+    """bit-exact description of an argument object"""
+    if isinstance(o, np.ndarray):
+        return ['ndarray', str(o.dtype), list(o.shape), o.tobytes().hex()]
+    if isinstance(o, (list, tuple)):
+        return [type(o).__name__, [[type(e).__name__, float(e).hex()] for e in o]]
+    return [type(o).__name__, repr(o)]
+
+def make_obj(vals, kind, integer=False):
+    if kind == 'tuple':
+        return tuple(vals)
+    if kind == 'ndarray':
+        return np.array(vals, dtype=int if integer else float)
+    if kind == 'scalar':
+        return vals[0]
+    return list(vals)
+
+def buffers(o):
+    """the numpy buffers of a result / model value: data and (for masked arrays) mask"""
     out = []
-    for c in cases:
-        xs = c['xs']; pts_l = c['pts']           # pts_l[i] -> xs[i]
-        xmap = dict(zip(pts_l, xs))
-        coefs = c['coefs']                       # per entry, lowest degree first
-        over = c.get('ys_override')              # per entry list of k values or None
-        shape = c.get('shape')
-        rec = {'id': c['id']}
-        calls = []
+    if isinstance(o, np.ma.MaskedArray):
+        out.append(('data', o.data))
+        m = np.ma.getmask(o)
+        if m is not np.ma.nomask:
+            out.append(('mask', m))
+    elif isinstance(o, np.ndarray):
+        out.append(('data', o))
+    return out
+
+def run_case(c):
+    k = c['k']
+    grid_pts = c.get('grid_pts') or c['pts']
+    grid_x = c.get('grid_x') or c['xs']
+    xmap = dict(zip(grid_pts, grid_x))
+    shape = c.get('shape')
+    coefs_by_fn = [c['coefs']] + ([c['coefs2']] if c.get('coefs2') else [])
+    over = c.get('ys_override')              # per entry list of k values (aligned with the first k grid sizes) or None
+    calls = c.get('calls')
+    if calls is None:                        # replay files written before the multi-call format: one call
+        p = c['pts']
+        calls = [{'fn': 0, 'passing': c.get('pts_passing', 'pos'), 'pts': p, 'args': [1.5, 2.5],
+                  'pts_kind': 'scalar' if (len(p) == 1 and c.get('scalar_pts')) else 'list'}]
+    rec = {'id': c['id'], 'calls': []}
+    trace = []                               # (pts, values, returned object) of the model evaluations of the current call
+
+    def make_model(coefs):
         def model(a, b, pts, scale=1.0):
+            pts = int(pts)
             x = xmap[pts]
+            factor = (a + b) / 4.0
             vals = []
             for e, cs in enumerate(coefs):
                 if over and over[e] is not None:
-                    v = over[e][pts_l.index(pts)]
+                    v = over[e][grid_pts.index(pts) % k]
                 else:
                     v = 0.0
                     for cc in reversed(cs):
                         v = v * x + cc
                     if c['log']:
                         v = float(np.exp(v))
-                vals.append(v * scale * (a + b) / (a + b))
+                vals.append(v * scale * factor)
             arr = np.array(vals, dtype=float)
-            calls.append((pts, [float(t) for t in arr]))
+            vals = [float(t) for t in arr]
             if c['mode'] == 'scalar':
+                trace.append((pts, vals, None))
                 return arr[0]
             if c['mode'] == 'spectrum':
                 arr = arr.reshape(shape)
-                fs = dadi.Spectrum(arr, mask_corners=c.get('mask_corners', True), pop_ids=c.get('pop_ids'))
+                pid = c.get('pop_ids')
+                fs = dadi.Spectrum(arr, mask_corners=c.get('mask_corners', True), pop_ids=list(pid) if pid is not None else None)
                 # what the result itself carries: the spacing (default), a DIFFERENT value (an explicit extrap_x_l must win), or None
                 ax = c.get('attr_x', 'same')
                 fs.extrap_x = x if ax == 'same' else (None if ax == 'none' else 0.5 / pts + 0.01)
+                trace.append((pts, vals, fs))
                 return fs
+            trace.append((pts, vals, arr))
             return arr
-        try:
-            xl = None if c['x_from'] == 'attr' else list(xs)
+        model.__name__ = 'model'
+        return model
+
+    # ---- wrap ONCE
+    try:
+        xl = None if c['x_from'] == 'attr' else make_obj(c['xs'], c.get('xl_kind', 'list'))
+        xl_before = snap(xl) if xl is not None else None
+        funcs = []
+        for coefs in coefs_by_fn:            # two wrapped functions share the very same extrap_x_l object
+            model = make_model(coefs)
             if c['log'] and c.get('via_log_func', False):
                 f = dadi.Numerics.make_extrap_log_func(model, extrap_x_l=xl)
             else:
@@ -51,28 +110,96 @@ def main():
                 if c['fail_mag'] != 10:
                     kw['fail_mag'] = c['fail_mag']
                 f = dadi.Numerics.make_extrap_func(model, extrap_x_l=xl, extrap_log=c['log'], **kw)
-            p = pts_l if len(pts_l) > 1 or not c.get('scalar_pts') else pts_l[0]
-            if c['pts_passing'] == 'kw':
-                res = f(1.5, 2.5, pts=p)
+            funcs.append(f)
+        rec['name'] = funcs[0].__name__
+    except Exception as e:
+        rec['error'] = type(e).__name__ + ': ' + str(e)[:200]
+        return rec
+
+    pts_objs = {}                            # the caller's pts lists: one object per (grid sizes, kind), re-used for every call
+    keep = []                                # earlier results and model arrays stay alive (no address re-use)
+    for call in calls:
+        out = {}
+        del trace[:]
+        key = (tuple(call['pts']), call.get('pts_kind', 'list'))
+        if key not in pts_objs:
+            o = make_obj(call['pts'], key[1], integer=True)
+            pts_objs[key] = (o, snap(o))
+        p = pts_objs[key][0]
+        a, b_ = call.get('args', [1.5, 2.5])
+        f = funcs[call.get('fn', 0)]
+        try:
+            if call['passing'] == 'kw':
+                res = f(a, b_, pts=p)
             else:
-                res = f(1.5, 2.5, p)
+                res = f(a, b_, p)
             ys = {}
-            for pts, vals in calls:
+            for pts, vals, _ in trace:
                 ys[pts] = vals
-            rec['ys'] = [[ys[p][e] for p in pts_l] for e in range(len(coefs))]
-            if c['mode'] == 'spectrum':
-                rec['pop_ids'] = getattr(res, 'pop_ids', None)
-                rec['is_spectrum'] = isinstance(res, dadi.Spectrum)
-                rec['mask'] = [bool(t) for t in np.ma.getmaskarray(res).ravel()]
-                rec['res'] = [float(t) for t in np.asarray(res.data).ravel()]
-                rec['shape'] = list(res.shape)
-            elif c['mode'] == 'scalar':
-                rec['res'] = [float(res)]
+            out['evaluated'] = [t[0] for t in trace]
+            if all(int(q) in ys for q in call['pts']):
+                out['ys'] = [[ys[int(q)][e] for q in call['pts']] for e in range(len(coefs_by_fn[0]))]
             else:
-                rec['res'] = [float(t) for t in np.asarray(res).ravel()]
-            rec['name'] = f.__name__
+                out['ys'] = None                 # the wrapped function did not evaluate the model on every grid size it was given
+            if c['mode'] == 'spectrum':
+                out['pop_ids'] = getattr(res, 'pop_ids', None)
+                out['is_spectrum'] = isinstance(res, dadi.Spectrum)
+                out['mask'] = [bool(t) for t in np.ma.getmaskarray(res).ravel()]
+                out['res'] = [float(t) for t in np.asarray(res.data).ravel()]
+                out['shape'] = list(res.shape)
+            elif c['mode'] == 'scalar':
+                out['res'] = [float(res)]
+            else:
+                out['res'] = [float(t) for t in np.asarray(res).ravel()]
+            # ---- aliasing: result buffers against the model's arrays of this call, everything kept from earlier calls, the arguments
+            alias = []
+            rb = buffers(res)
+            for nm, buf in rb:
+                for pts, _, obj in trace:
+                    for nm2, buf2 in buffers(obj):
+                        if np.shares_memory(buf, buf2):
+                            alias.append('result.%s shares memory with the model\'s %s for pts=%d of this call' % (nm, nm2, pts))
+                for j, obj in keep:
+                    for nm2, buf2 in buffers(obj):
+                        if np.shares_memory(buf, buf2):
+                            alias.append('result.%s shares memory with %s of call %d' % (nm, nm2, j))
+                for o in [xl] + [t[0] for t in pts_objs.values()]:
+                    if isinstance(o, np.ndarray) and np.shares_memory(buf, o):
+                        alias.append('result.%s shares memory with an argument array' % nm)
+            out['alias'] = alias
+            # ---- the arrays the model returned are the model's (it may hand out cached spectra): still what it returned?
+            changed = []
+            for pts, vals, obj in trace:
+                if obj is not None:
+                    cur = [float(t) for t in np.asarray(obj.data if isinstance(obj, np.ma.MaskedArray) else obj).ravel()]
+                    if cur != vals:
+                        changed.append([pts, vals, cur])
+            out['model_arrays_changed'] = changed
+            # ---- leave nothing usable behind
+            j = len(rec['calls'])
+            for nm, buf in rb:
+                if nm == 'data' and buf.flags.writeable:
+                    buf[...] = SENTINEL
+            for pts, _, obj in trace:
+                for nm2, buf2 in buffers(obj):
+                    if nm2 == 'data' and buf2.flags.writeable:
+                        buf2[...] = SENTINEL
+                keep.append((j, obj))
+            keep.append((j, res))
         except Exception as e:
-            rec['error'] = type(e).__name__ + ': ' + str(e)[:200]
-        out.append(rec)
-    print(json.dumps(out))
+            out['error'] = type(e).__name__ + ': ' + str(e)[:200]
+        # ---- argument-freezing predicate, after every call
+        out['xl_frozen'] = (xl is None) or snap(xl) == xl_before
+        if not out['xl_frozen']:
+            out['xl_now'] = snap(xl)
+        bad = [list(kk[0]) for kk, (o, s0) in pts_objs.items() if snap(o) != s0]
+        out['pts_frozen'] = not bad
+        if bad:
+            out['pts_changed'] = [[list(kk[0]), snap(o)] for kk, (o, s0) in pts_objs.items() if snap(o) != s0]
+        rec['calls'].append(out)
+    return rec
+
+def main():
+    cases = json.load(sys.stdin)
+    print(json.dumps([run_case(c) for c in cases]))
 main()
